@@ -24,6 +24,10 @@ def realize(spec, rec, qhook=None):
         h = h * rec["scale"]
     if rec.get("copy"):
         h = h.copy()
+    if rec.get("pickle"):
+        import pickle  # noqa: PLC0415
+
+        h = pickle.loads(pickle.dumps(h))
     if rec.get("reload"):
         h = hg.Factory.fromJson(h.toJson())
     return h
